@@ -103,6 +103,15 @@ func C20(o *world.Obs) *Result {
 				r.Fail("C20", "bg-body-cancelled-late", ex.Idx, "the stalled body of the background reply s%d was released at %s, after start+timeout %s; %s", c.Serial, secs(un), secs(deadline), SummarizeExchange(o, ex))
 			}
 		}
+		if c.Reply != nil && c.Reply.Body.PauseAt > 0 && c.Status == 200 {
+			// a full, storable reply whose header arrived in time and whose body is still
+			// arriving: reading it is part of the background request, which has until
+			// start + timeout - a cancellation before that cuts the revalidation short
+			r.Label("bg-body-streams")
+			if cut := c.BodyCutNs.Load(); cut >= 0 && cut < deadline {
+				r.Fail("C20", "bg-body-cut-early", ex.Idx, "the body of the background reply s%d was still arriving when its context was cancelled at %s, before start+timeout %s; %s", c.Serial, secs(cut), secs(deadline), SummarizeExchange(o, ex))
+			}
+		}
 		slow := c.Reply != nil && (c.Reply.Kind == "hang" || c.Reply.LatencyNs > T)
 		if slow {
 			r.Label("bg-cancelled")
